@@ -101,7 +101,20 @@ def splitLine (ws : List String) : List String × List String × List String :=
   let (op, ch) := (lhs.takeWhile (· ≠ ";"), (lhs.dropWhile (· ≠ ";")).drop 1)
   (op, ch, rhs)
 
-def tokMatch (model impl : String) : Bool := model = "*" || model = impl
+/-- one reply token: `*` on either side matches anything; entry lists are compared entry by
+    entry, field by field (fields separated by `:`), with the same wildcard rule -/
+def fieldMatch (m i : String) : Bool := m = "*" || i = "*" || m = i
+
+def tokMatch (model impl : String) : Bool :=
+  fieldMatch model impl ||
+  (impl.contains '*' &&
+    let ms := model.splitOn ","
+    let is := impl.splitOn ","
+    ms.length = is.length &&
+    (ms.zip is).all fun (a, b) =>
+      let af := a.splitOn ":"
+      let bf := b.splitOn ":"
+      af.length = bf.length && (af.zip bf).all fun (x, y) => fieldMatch x y)
 
 def toksMatch : List String → List String → Bool
   | [], [] => true
